@@ -4,5 +4,5 @@ pid=$1; x=$2; tier=${3:-quick}
 d=/tmp/seedout/$pid-$x
 [ -f $d/patch.diff ] || { echo "$pid-$x missing"; exit 1; }
 v=$(/verif/tools/seedverify.sh $d pkg 2>&1 | tail -1)
-m=$(/verif/tools/mutcheck.sh $pid --patch $d/patch.diff $tier 2>&1 | grep -E "exit=|VIOLATION|INCONCLUSIVE|what:" | cut -c1-400 | tr '\n' '|')
+m=$(/verif/tools/mutcheck.sh $pid --patch $d/patch.diff $tier 2>&1 | grep -E "exit=|INCONCLUSIVE|what:" | cut -c1-260 | awk '/what:/{n++; if(n>2) next} {print}' | tr '\n' '|')
 echo "$(date +%H:%M) $v || check($tier): $m" >> /tmp/seedeval.log
